@@ -93,11 +93,27 @@ type slInst struct {
 	// roots[h] = state root returned when block h was flushed; dumps[h] = model at h
 	roots map[uint64]string
 	hist  map[uint64]*slModel
+	// blocks[h] = ops of block h (for re-execution after rollback); data[h] = digest of
+	// the non-journal store content right after h was committed
+	blocks   map[uint64][]string
+	data     map[uint64]string
+	curBlock []string
+	lastErr  error
+	reexec   []slReexec
 }
 
+type slReexec struct {
+	ops  []string
+	root string
+}
+
+var zeroHash types.Hash
+
 func newSLInst() *slInst {
-	in := &slInst{store: memkv.New("state"), cur: newSLModel(), comm: newSLModel(), roots: map[uint64]string{}, hist: map[uint64]*slModel{}}
+	in := &slInst{store: memkv.New("state"), cur: newSLModel(), comm: newSLModel(), roots: map[uint64]string{}, hist: map[uint64]*slModel{},
+		blocks: map[uint64][]string{}, data: map[uint64]string{}}
 	in.hist[0] = newSLModel()
+	in.data[0] = in.dataDigest()
 	in.open()
 	return in
 }
@@ -117,6 +133,17 @@ func (in *slInst) touch(k string) {
 	in.touched[k] = true
 }
 
+// kbytes maps key names to key bytes; BIN1/BIN2 are non-UTF-8 keys (like EVM slots).
+func kbytes(k string) []byte {
+	switch k {
+	case "BIN1":
+		return []byte{0xff, 0x01}
+	case "BIN2":
+		return []byte{0xfe, 0x02}
+	}
+	return []byte(k)
+}
+
 func vbytes(v string) []byte {
 	if v == "nil" {
 		return nil
@@ -133,13 +160,13 @@ func (in *slInst) apply(op string) bool {
 	switch f[0] {
 	case "set": // set A key val
 		a := slAddr[f[1]]
-		in.l.SetState(a, []byte(f[2]), vbytes(f[3]), nil)
+		in.l.SetState(a, kbytes(f[2]), vbytes(f[3]), nil)
 		in.touch(f[1] + "|" + f[2])
 		in.cur.st[f[1]+"|"+f[2]] = string(vbytes(f[3]))
 		in.dirty = true
 	case "del":
 		a := slAddr[f[1]]
-		in.l.SetState(a, []byte(f[2]), nil, nil)
+		in.l.SetState(a, kbytes(f[2]), nil, nil)
 		in.touch(f[1] + "|" + f[2])
 		delete(in.cur.st, f[1]+"|"+f[2])
 		in.dirty = true
@@ -153,12 +180,12 @@ func (in *slInst) apply(op string) bool {
 			return false
 		}
 		a := slAddr[f[1]]
-		in.l.AddState(a, []byte(f[2]), vbytes(f[3]))
+		in.l.AddState(a, kbytes(f[2]), vbytes(f[3]))
 		in.cur.st[f[1]+"|"+f[2]] = string(vbytes(f[3]))
 		in.dirty = true
 	case "get":
 		a := slAddr[f[1]]
-		in.l.GetState(a, []byte(f[2]))
+		in.l.GetState(a, kbytes(f[2]))
 		in.touch(f[1] + "|" + f[2])
 	case "bal":
 		v, _ := strconv.ParseInt(f[2], 10, 64)
@@ -171,7 +198,7 @@ func (in *slInst) apply(op string) bool {
 		in.cur.nonce[f[1]] = v
 		in.dirty = true
 	case "code":
-		in.l.SetCode(slAddr[f[1]], []byte(f[2]))
+		in.l.SetCode(slAddr[f[1]], kbytes(f[2]))
 		in.cur.code[f[1]] = f[2]
 		in.dirty = true
 	case "snap":
@@ -208,6 +235,9 @@ func (in *slInst) apply(op string) bool {
 			panic(fmt.Errorf("commit %d: %w", in.height, err))
 		}
 		in.roots[in.height] = root.String()
+		in.blocks[in.height] = in.curBlock
+		in.curBlock = nil
+		in.data[in.height] = in.dataDigest()
 		in.comm = in.cur.clone()
 		in.hist[in.height] = in.cur.clone()
 		in.dirty = false
@@ -223,10 +253,50 @@ func (in *slInst) apply(op string) bool {
 			return false
 		}
 		ledger.VerifPurgeCache(in.l)
+	case "rollback":
+		if in.dirty || len(in.snaps) > 0 {
+			return false
+		}
+		t, _ := strconv.ParseUint(f[1], 10, 64)
+		in.lastErr = in.l.RollbackState(t)
+		if in.lastErr == nil && t <= in.height {
+			for h := t + 1; h <= in.height; h++ {
+				delete(in.hist, h)
+				delete(in.roots, h)
+				delete(in.blocks, h)
+				delete(in.data, h)
+			}
+			in.height = t
+			in.cur = in.hist[t].clone()
+			in.comm = in.hist[t].clone()
+		}
+		in.touched = nil
+		return true
 	default:
 		panic("unknown op " + op)
 	}
+	if f[0] != "commit" && f[0] != "reopen" && f[0] != "purge" {
+		in.curBlock = append(in.curBlock, op)
+	}
 	return true
+}
+
+// dataDigest hashes the store content without the journal bookkeeping keys.
+func (in *slInst) dataDigest() string {
+	var sb strings.Builder
+	snap := in.store.Snapshot()
+	var ks []string
+	for k := range snap {
+		if strings.HasPrefix(k, "journal-") {
+			continue
+		}
+		ks = append(ks, k)
+	}
+	sort.Strings(ks)
+	for _, k := range ks {
+		fmt.Fprintf(&sb, "%q=%q;", k, snap[k])
+	}
+	return sb.String()
 }
 
 func (in *slInst) key() string {
@@ -241,18 +311,26 @@ func (in *slInst) key() string {
 }
 
 var slKeys = []string{"a", "ab", "b"}
+var slKeysBin = []string{"a", "ab", "b", "BIN1", "BIN2"}
 
 // compareReads compares every getter and prefix query of l with model m.
 // It returns a list of (signature, description) mismatches.
 func slCompareReads(l ethledger.StateLedger, m *slModel, accounts []string, ctxName string) [][2]string {
+	return slCompareReadsKeys(l, m, accounts, ctxName, slKeys)
+}
+
+func slCompareReadsKeys(l ethledger.StateLedger, m *slModel, accounts []string, ctxName string, keys []string) [][2]string {
 	var out [][2]string
 	for _, an := range accounts {
 		a := slAddr[an]
-		for _, k := range slKeys {
+		for _, k := range keys {
 			want, live := m.st[an+"|"+k]
-			ok, got := l.GetState(a, []byte(k))
+			ok, got := l.GetState(a, kbytes(k))
 			if ok != live || (live && !bytes.Equal(got, []byte(want))) {
 				cls := "stale-or-wrong-value"
+				if strings.HasPrefix(k, "BIN") {
+					cls = "non-utf8-key"
+				}
 				if (live && want == "") || (!live && ok && len(got) == 0) {
 					cls = "empty-value"
 				}
